@@ -3,6 +3,7 @@ package main
 import (
 	"context"
 	"math/rand"
+	"strings"
 
 	"fmt"
 	"github.com/vipnode/vipnode/v2/pool"
@@ -209,6 +210,34 @@ func runC05(ctx *Ctx) {
 		c05PoolSeq(ctx, i, ctx.Sub(i), c%2, E)
 	}
 
+	// --- a busy nonce table: an identity's few-minutes-old nonce, hundreds of other identities,
+	// then replays around the old nonce (the table may be cleaned up, the decisions may not change)
+	for drv := 0; drv < 2; drv++ {
+		i := idx
+		idx++
+		if !ctx.Want(i) {
+			continue
+		}
+		st := newStore(drv)
+		var reqs []c05Req
+		sub := func(id int, n int64, what string) {
+			now := time.Now().UnixNano()
+			err := st.CheckAndSaveNonce(fmt.Sprintf("crowd%d-id%d", i, id), n)
+			reqs = append(reqs, c05Req{Now: now, ID: id, Nonce: n, Acc: err == nil, What: what})
+		}
+		n0 := time.Now().UnixNano() - int64(5*time.Minute)
+		sub(1, n0, "first use, 5 minutes old")
+		for k := 0; k < 600; k++ {
+			sub(2+k, time.Now().UnixNano(), "")
+		}
+		sub(1, n0, "verbatim replay after 600 other identities")
+		sub(1, n0-1, "just below")
+		sub(1, n0+1, "just above")
+		st.Destroy()
+		ctx.Emit(Case{I: i, Kind: "crowd-" + driverNames[drv], Coq: c05Coq(drv, E, reqs, nil, 0, 0),
+			Desc: c05Desc{Driver: driverNames[drv], E: E, Reqs: append(append([]c05Req{}, reqs[:2]...), reqs[len(reqs)-3:]...)}, Monitor: c05Monitor(reqs)})
+	}
+
 	// --- racing duplicates
 	ndup := ctx.N(20, 300)
 	for c := 0; c < ndup; c++ {
@@ -298,7 +327,20 @@ func c05PoolSeq(ctx *Ctx, i int, rng *rand.Rand, drv int, E int64) {
 		case 3:
 			addr := walletOf("w1")
 			sig := w.sign(keyFor("w1"), "pool_addNode", addr, n, nodeIDOf("c1"))
-			return w.pay.AddNode(context.Background(), sig, addr, n, nodeIDOf("c1"))
+			err := w.pay.AddNode(context.Background(), sig, addr, n, nodeIDOf("c1"))
+			if err == nil {
+				// the same signed request once more, the wallet spelled differently (the nonce table is
+				// keyed by the string sent): the signature is over the spelling that was signed
+				for _, other := range []string{strings.ToLower(addr), "0x" + strings.ToUpper(addr[2:]), addr[2:]} {
+					if other == addr {
+						continue
+					}
+					if rerr := w.pay.AddNode(context.Background(), sig, other, n, nodeIDOf("c1")); classify(rerr).Class != "verify" {
+						mon = append(mon, fmt.Sprintf("c05-replay-under-other-spelling: a signed pool_addNode (nonce %d) was accepted, then accepted AGAIN with the same signature and nonce under the wallet spelling %q: %v", n, other, rerr))
+					}
+				}
+			}
+			return err
 		default:
 			req := pool.PeerRequest{Num: 1}
 			sig := w.sign(keyFor("c3"), "vipnode_peer", nodeIDOf("c3"), n, req)
